@@ -185,8 +185,7 @@ Qed.
 (* ---- invariants of reachable states ---- *)
 Record inv (s : st) : Prop := mkInv {
   inv_alive : forall n, memn n (alive s) = true -> memn n (nodes s) = true;
-  inv_listed : forall k se, phase s k = Active se -> se_listed se = true -> se_watch se = true;
-  inv_holder : forall k se, phase s k = Active se -> holder s = Some k
+  inv_listed : forall k se, phase s k = Active se -> se_listed se = true -> se_watch se = true
 }.
 Lemma phase_set_cases : forall s k p j se, phase (set_phase s k p) j = Active se ->
   (j = k /\ p = Active se) \/ (j <> k /\ phase s j = Active se).
@@ -219,25 +218,33 @@ Qed.
 
 Ltac phase_cases H :=
   apply phase_set_cases in H; destruct H as [[? H]|[? H]]; [subst; try discriminate; try (inversion H; subst; clear H)|].
-Ltac same I := constructor; [apply (inv_alive _ I)|apply (inv_listed _ I)|apply (inv_holder _ I)].
+Ltac same I := constructor; [apply (inv_alive _ I)|apply (inv_listed _ I)].
 
 (* an update of the session of watcher k that keeps "listed -> watch" *)
-Lemma inv_set_active : forall s k se se', inv s -> phase s k = Active se ->
+Lemma inv_set_active : forall s k se', inv s ->
   (se_listed se' = true -> se_watch se' = true) ->
   inv (set_phase s k (Active se')).
 Proof.
-  intros s k se se' I Pk Hl. constructor; simpl.
+  intros s k se' I Hl. constructor; simpl.
   - apply (inv_alive _ I).
   - intros j x P L. phase_cases P; [auto|]. apply (inv_listed _ I j x P L).
-  - intros j x P. phase_cases P; [apply (inv_holder _ I _ _ Pk)|]. apply (inv_holder _ I j x P).
 Qed.
+(* ... or that makes it something else than Active *)
+Lemma inv_set_inactive : forall s k p, inv s -> (forall se, p <> Active se) -> inv (set_phase s k p).
+Proof.
+  intros s k p I Hp. constructor; simpl.
+  - apply (inv_alive _ I).
+  - intros j x P L. apply phase_set_cases in P. destruct P as [[_ P]|[_ P]]; [exfalso; eapply Hp; exact P|].
+    apply (inv_listed _ I j x P L).
+Qed.
+Lemma inv_holder_frame : forall s h, inv s -> inv (set_holder s h).
+Proof. intros s h I. constructor; [apply (inv_alive _ I)|apply (inv_listed _ I)]. Qed.
 
 Lemma inv_step : forall s e, inv s -> inv (step s e).
 Proof.
   intros s e I.
   destruct e; simpl.
-  - (* EAddNode *) destruct (memn n (nodes s)) eqn:M; [same I|]. constructor; simpl;
-      [|apply (inv_listed _ I)|apply (inv_holder _ I)].
+  - (* EAddNode *) destruct (memn n (nodes s)) eqn:M; [same I|]. constructor; simpl; [|apply (inv_listed _ I)].
     intros m Hm. apply (inv_alive _ I) in Hm. apply memn_In. apply in_or_app. left. apply memn_In. exact Hm.
   - (* EHeartbeat *) destruct (memn n (nodes s)) eqn:M; simpl; [|same I].
     destruct (memn n (alive s)) eqn:A; [same I|]. constructor; simpl.
@@ -245,54 +252,45 @@ Proof.
         [apply Nat.eqb_eq in Hm; subst; exact M|apply (inv_alive _ I); exact Hm].
     + intros k se P L. apply phase_map_enqueue in P. destruct P as [se0 [P [W Li]]].
       rewrite W. apply (inv_listed _ I k se0 P). congruence.
-    + intros k se P. apply phase_map_enqueue in P. destruct P as [se0 [P _]]. apply (inv_holder _ I k se0 P).
   - (* ELapse *) destruct (memn n (alive s)) eqn:A; [|same I]. constructor; simpl.
     + intros m Hm. apply (inv_alive _ I). apply memn_In in Hm. unfold remn in Hm. apply filter_In in Hm.
       apply memn_In. tauto.
     + intros k se P L. apply phase_map_enqueue in P. destruct P as [se0 [P [W Li]]].
       rewrite W. apply (inv_listed _ I k se0 P). congruence.
-    + intros k se P. apply phase_map_enqueue in P. destruct P as [se0 [P _]]. apply (inv_holder _ I k se0 P).
   - (* ECreate *) destruct (memn n (nodes s)); same I.
   - (* EReport *) same I.
-  - (* ESpawn *) constructor; simpl; [apply (inv_alive _ I)| |].
-    + intros k se P. apply phase_snoc in P. apply (inv_listed _ I k se P).
-    + intros k se P. apply phase_snoc in P. apply (inv_holder _ I k se P).
-  - (* EStart *) destruct (phase s k) eqn:Pk; try (same I). constructor; simpl; [apply (inv_alive _ I)| |].
-    + intros j se P. phase_cases P. apply (inv_listed _ I j se P).
-    + intros j se P. phase_cases P. apply (inv_holder _ I j se P).
+  - (* ESpawn *) constructor; simpl; [apply (inv_alive _ I)|].
+    intros k se P. apply phase_snoc in P. apply (inv_listed _ I k se P).
+  - (* EStart *) destruct (phase s k) eqn:Pk; try (same I). apply inv_set_inactive; [exact I|discriminate].
   - (* ERegister *) destruct (phase s k) eqn:Pk; try (same I).
-    destruct (holder s) eqn:Ho; [same I|]. constructor; simpl; [apply (inv_alive _ I)| |].
-    + intros j se P L. phase_cases P; [simpl in L; discriminate|]. apply (inv_listed _ I j se P L).
-    + intros j se P. phase_cases P; [reflexivity|]. apply (inv_holder _ I) in P. congruence.
-  - (* EExpire *) destruct (phase s k) eqn:Pk; try (same I). constructor; simpl; [apply (inv_alive _ I)| |].
-    + intros j se0 P. phase_cases P. apply (inv_listed _ I j se0 P).
-    + intros j se0 P. phase_cases P. pose proof (inv_holder _ I _ _ P). pose proof (inv_holder _ I _ _ Pk). congruence.
+    destruct (holder s) eqn:Ho; [same I|]. apply inv_holder_frame. apply inv_set_active; [exact I|].
+    simpl. discriminate.
+  - (* ELeaseLost *) destruct (holder s) as [k'|]; [|same I]. destruct (k' =? k); [|same I].
+    apply inv_holder_frame. exact I.
+  - (* EExpire *) destruct (phase s k) eqn:Pk; try (same I).
+    apply inv_holder_frame. apply inv_set_inactive; [exact I|discriminate].
   - (* EStop *) destruct (phase s k) eqn:Pk; try (same I).
-    + constructor; simpl; [apply (inv_alive _ I)| |].
-      * intros j se0 P. phase_cases P. apply (inv_listed _ I j se0 P).
-      * intros j se0 P. phase_cases P. apply (inv_holder _ I j se0 P).
-    + constructor; simpl; [apply (inv_alive _ I)| |].
-      * intros j se0 P. phase_cases P. apply (inv_listed _ I j se0 P).
-      * intros j se0 P. phase_cases P. apply (inv_holder _ I j se0 P).
-    + constructor; simpl; [apply (inv_alive _ I)| |].
-      * intros j se0 P. phase_cases P. apply (inv_listed _ I j se0 P).
-      * intros j se0 P. phase_cases P. pose proof (inv_holder _ I _ _ P). pose proof (inv_holder _ I _ _ Pk). congruence.
-  - (* EWatch *) destruct (phase s k) eqn:Pk; try (same I).
-    apply (inv_set_active s k se); auto.
+    + apply inv_set_inactive; [exact I|discriminate].
+    + apply inv_set_inactive; [exact I|discriminate].
+    + apply inv_holder_frame. apply inv_set_inactive; [exact I|discriminate].
+  - (* EWatch *) destruct (phase s k) eqn:Pk; try (same I). apply inv_set_active; auto.
   - (* EInitList *) destruct (phase s k) eqn:Pk; try (same I).
     destruct (se_listed se || negb (se_watch se)) eqn:G; [same I|].
-    apply (inv_set_active s k se); auto. simpl. intros _.
+    apply inv_set_active; auto. simpl. intros _.
     apply orb_false_iff in G. destruct G as [_ G]. apply negb_false_iff in G. exact G.
   - (* EInitRead *) destruct (phase s k) eqn:Pk; try (same I).
     destruct (se_init se) eqn:Ini; [same I|].
-    apply (inv_set_active s k se); auto. simpl. apply (inv_listed _ I k se Pk).
+    apply inv_set_active; auto. simpl. apply (inv_listed _ I k se Pk).
   - (* EDeliver *) destruct (phase s k) eqn:Pk; try (same I).
     destruct (se_queue se) as [|[n0 a0] r0] eqn:Qu; [same I|].
-    apply (inv_set_active s k se); auto. simpl. apply (inv_listed _ I k se Pk).
+    apply inv_set_active; auto. simpl. apply (inv_listed _ I k se Pk).
   - (* EHandle *) destruct (phase s k) eqn:Pk; try (same I).
     destruct (nth_error (se_tasks se) j) eqn:Nt; [|same I].
-    pose proof (inv_set_active s k se (mkSe (se_watch se) (se_listed se) (se_init se) (se_queue se) (remove_nth j (se_tasks se))) I Pk (inv_listed _ I k se Pk)) as X.
-    destruct X as [XA XL XH]. constructor; simpl; auto.
+    pose proof (inv_set_active s k (mkSe (se_watch se) (se_listed se) (se_init se) (se_queue se) (remove_nth j (se_tasks se))) I (inv_listed _ I k se Pk)) as X.
+    destruct X as [XA XL]. constructor; simpl; auto.
+  - (* EHandleFail *) destruct (phase s k) eqn:Pk; try (same I).
+    destruct (nth_error (se_tasks se) j) eqn:Nt; [|same I].
+    apply inv_set_active; auto. simpl. apply (inv_listed _ I k se Pk).
 Qed.
 
 Lemma inv_init : inv init.
@@ -301,6 +299,100 @@ Proof.
 Qed.
 Lemma inv_run : forall evs s, inv s -> inv (run s evs).
 Proof. induction evs as [|e t IH]; intros s I; simpl; [exact I|]. apply IH. apply inv_step. exact I. Qed.
+
+(* ---- the lock /selfmon/active ---- *)
+Definition active (s : st) (k : nat) : Prop := exists se, phase s k = Active se.
+(* k's session is still running although the key is no longer bound to its lease *)
+Definition stale (s : st) (k : nat) : Prop := active s k /\ holder s <> Some k.
+Definition lease_loss (e : event) : Prop := exists k, e = ELeaseLost k.
+
+Lemma active_set_other : forall s k j p, k <> j -> active s j -> active (set_phase s k p) j.
+Proof. intros s k j p E [se P]. exists se. rewrite phase_set_other by exact E. exact P. Qed.
+Lemma active_lt : forall s k, active s k -> k < length (ws s).
+Proof. intros s k [se P]. eapply phase_active_lt. exact P. Qed.
+Lemma phase_enqueue_any : forall s n a k al,
+  phase (set_ws (set_alive s al) (map (enqueue n a) (ws s))) k = enqueue n a (phase s k).
+Proof.
+  intros. unfold phase. simpl. change Stopped with (enqueue n a Stopped) at 1. rewrite map_nth. reflexivity.
+Qed.
+Lemma active_enqueue : forall s n a al j, active s j ->
+  active (set_ws (set_alive s al) (map (enqueue n a) (ws s))) j.
+Proof.
+  intros s n a al j [se P]. unfold active. rewrite phase_enqueue_any, P. simpl.
+  destruct (se_watch se); eexists; reflexivity.
+Qed.
+
+(* the key, when it exists, is bound to the lease of a running session *)
+Definition hvalid (s : st) : Prop := forall k, holder s = Some k -> active s k.
+(* without lease losses a running session always holds the key *)
+Definition hexact (s : st) : Prop := forall k, active s k -> holder s = Some k.
+
+Lemma active_frame : forall s s' k, phase s' k = phase s k -> active s k -> active s' k.
+Proof. intros s s' k E [se P]. exists se. congruence. Qed.
+
+Lemma hvalid_step : forall s e, hvalid s -> hvalid (step s e).
+Proof.
+  intros s e H k.
+  destruct e; simpl.
+  - destruct (memn n (nodes s)); intro Hk; apply H in Hk; exact Hk.
+  - destruct (negb (memn n (nodes s))); [apply H|]. destruct (memn n (alive s)); [apply H|].
+    simpl. intro Hk. apply active_enqueue. apply H. exact Hk.
+  - destruct (memn n (alive s)); [|apply H]. simpl. intro Hk. apply active_enqueue. apply H. exact Hk.
+  - destruct (memn n (nodes s)); intro Hk; apply H in Hk; exact Hk.
+  - intro Hk. apply H in Hk. exact Hk.
+  - simpl. intro Hk. apply H in Hk. destruct Hk as [se P]. exists se.
+    unfold phase in *. simpl. rewrite app_nth1; [exact P|]. eapply phase_active_lt. exact P.
+  - destruct (phase s k0) eqn:Pk; try apply H. simpl. intro Hk. apply H in Hk.
+    destruct (Nat.eq_dec k0 k); [subst; destruct Hk as [se P]; congruence|]. apply active_set_other; assumption.
+  - destruct (phase s k0) eqn:Pk; try apply H. destruct (holder s) eqn:Ho; [intro Hk; apply H; congruence|].
+    simpl. intro Hk. inversion Hk; subst. exists fresh. apply phase_set_same.
+    unfold phase in Pk. destruct (Nat.lt_ge_cases k (length (ws s))); [assumption|].
+    rewrite nth_overflow in Pk by assumption. discriminate.
+  - destruct (holder s) as [k'|] eqn:Ho; [|intro Hk; apply H; congruence].
+    destruct (k' =? k0); [simpl; discriminate|intro Hk; apply H; congruence].
+  - destruct (phase s k0) eqn:Pk; try apply H. simpl. unfold release_by.
+    destruct (holder s) as [k'|] eqn:Ho; [|discriminate].
+    destruct (k' =? k0) eqn:E; [discriminate|]. intro Hk. inversion Hk; subst.
+    apply active_set_other; [apply Nat.eqb_neq in E; congruence|]. apply H. exact Ho.
+  - destruct (phase s k0) eqn:Pk; try apply H; simpl.
+    + intro Hk. apply H in Hk. destruct (Nat.eq_dec k0 k); [subst; destruct Hk as [se P]; congruence|].
+      apply active_set_other; assumption.
+    + intro Hk. apply H in Hk. destruct (Nat.eq_dec k0 k); [subst; destruct Hk as [se P]; congruence|].
+      apply active_set_other; assumption.
+    + unfold release_by. destruct (holder s) as [k'|] eqn:Ho; [|discriminate].
+      destruct (k' =? k0) eqn:E; [discriminate|]. intro Hk. inversion Hk; subst.
+      apply active_set_other; [apply Nat.eqb_neq in E; congruence|]. apply H. exact Ho.
+  - destruct (phase s k0) eqn:Pk; try apply H. simpl. intro Hk. apply H in Hk.
+    destruct (Nat.eq_dec k0 k); [subst; eexists; apply phase_set_same; eapply phase_active_lt; exact Pk|].
+    apply active_set_other; assumption.
+  - destruct (phase s k0) eqn:Pk; try apply H. destruct (se_listed se || negb (se_watch se)); [apply H|].
+    simpl. intro Hk. apply H in Hk.
+    destruct (Nat.eq_dec k0 k); [subst; eexists; apply phase_set_same; eapply phase_active_lt; exact Pk|].
+    apply active_set_other; assumption.
+  - destruct (phase s k0) eqn:Pk; try apply H. destruct (se_init se); [apply H|].
+    simpl. intro Hk. apply H in Hk.
+    destruct (Nat.eq_dec k0 k); [subst; eexists; apply phase_set_same; eapply phase_active_lt; exact Pk|].
+    apply active_set_other; assumption.
+  - destruct (phase s k0) eqn:Pk; try apply H. destruct (se_queue se) as [|[? ?] ?]; [apply H|].
+    simpl. intro Hk. apply H in Hk.
+    destruct (Nat.eq_dec k0 k); [subst; eexists; apply phase_set_same; eapply phase_active_lt; exact Pk|].
+    apply active_set_other; assumption.
+  - destruct (phase s k0) eqn:Pk; try apply H. destruct (nth_error (se_tasks se) j); [|apply H].
+    simpl. intro Hk. apply H in Hk.
+    destruct (Nat.eq_dec k0 k).
+    + subst. eexists. unfold phase. simpl. rewrite nth_upd_same by (eapply phase_active_lt; exact Pk). reflexivity.
+    + destruct Hk as [se' P]. exists se'. unfold phase in *. simpl. rewrite nth_upd_other by assumption. exact P.
+  - destruct (phase s k0) eqn:Pk; try apply H. destruct (nth_error (se_tasks se) j); [|apply H].
+    simpl. intro Hk. apply H in Hk.
+    destruct (Nat.eq_dec k0 k); [subst; eexists; apply phase_set_same; eapply phase_active_lt; exact Pk|].
+    apply active_set_other; assumption.
+Qed.
+
+Lemma hvalid_run : forall evs s, hvalid s -> hvalid (run s evs).
+Proof. induction evs as [|e t IH]; intros s H; simpl; [exact H|]. apply IH. apply hvalid_step. exact H. Qed.
+Lemma hvalid_init : hvalid init.
+Proof. intros k H. discriminate. Qed.
+
 (* every workload recorded on n in s is, in s', still on n and reported down *)
 Definition all_down (s s' : st) (n : node) : Prop :=
   forall i w, nth_error (wls s) i = Some w -> w_node w = n ->
@@ -391,14 +483,104 @@ Proof.
   unfold down_wl. rewrite Hn, Nat.eqb_refl. simpl. auto.
 Qed.
 
-(* withActiveLock: at most one watcher is active *)
-Theorem one_active : forall evs k1 k2 se1 se2,
+Lemma active_set_cases : forall s k p j, active (set_phase s k p) j ->
+  (j = k /\ exists se, p = Active se) \/ (j <> k /\ active s j).
+Proof.
+  intros s k p j [se P]. apply phase_set_cases in P. destruct P as [[E P]|[E P]]; [left|right]; split; eauto.
+  exists se. exact P.
+Qed.
+
+Lemma hexact_step : forall s e, ~ lease_loss e -> hexact s -> hexact (step s e).
+Proof.
+  intros s e NL H j.
+  destruct e; simpl.
+  - destruct (memn n (nodes s)); intro A; apply H in A; exact A.
+  - destruct (negb (memn n (nodes s))); [apply H|]. destruct (memn n (alive s)); [apply H|].
+    simpl. intros [se P]. apply phase_map_enqueue in P. destruct P as [se0 [P _]]. apply H. exists se0. exact P.
+  - destruct (memn n (alive s)); [|apply H]. simpl. intros [se P].
+    apply phase_map_enqueue in P. destruct P as [se0 [P _]]. apply H. exists se0. exact P.
+  - destruct (memn n (nodes s)); intro A; apply H in A; exact A.
+  - intro A. apply H in A. exact A.
+  - simpl. intros [se P]. apply phase_snoc in P. apply H. exists se. exact P.
+  - destruct (phase s k) eqn:Pk; try apply H. simpl. intro A. apply active_set_cases in A.
+    destruct A as [[_ [se A]]|[_ A]]; [discriminate|apply H; exact A].
+  - destruct (phase s k) eqn:Pk; try apply H. destruct (holder s) eqn:Ho; [intro A; apply H in A; congruence|].
+    simpl. intro A. apply active_set_cases in A. destruct A as [[E _]|[_ A]]; [subst; reflexivity|].
+    apply H in A. congruence.
+  - exfalso. apply NL. exists k. reflexivity.
+  - destruct (phase s k) eqn:Pk; try apply H. simpl. intro A. apply active_set_cases in A.
+    destruct A as [[_ [se0 A]]|[E A]]; [discriminate|].
+    apply H in A. assert (holder s = Some k) by (apply H; exists se; exact Pk). congruence.
+  - destruct (phase s k) eqn:Pk; try apply H; simpl; intro A; apply active_set_cases in A;
+      destruct A as [[_ [se0 A]]|[E A]]; try discriminate; try (apply H; exact A).
+    apply H in A. assert (holder s = Some k) by (apply H; exists se; exact Pk). congruence.
+  - destruct (phase s k) eqn:Pk; try apply H. simpl. intro A. apply active_set_cases in A.
+    destruct A as [[E _]|[_ A]]; [subst; apply H; exists se; exact Pk|apply H; exact A].
+  - destruct (phase s k) eqn:Pk; try apply H. destruct (se_listed se || negb (se_watch se)); [apply H|].
+    simpl. intro A. apply active_set_cases in A.
+    destruct A as [[E _]|[_ A]]; [subst; apply H; exists se; exact Pk|apply H; exact A].
+  - destruct (phase s k) eqn:Pk; try apply H. destruct (se_init se); [apply H|].
+    simpl. intro A. apply active_set_cases in A.
+    destruct A as [[E _]|[_ A]]; [subst; apply H; exists se; exact Pk|apply H; exact A].
+  - destruct (phase s k) eqn:Pk; try apply H. destruct (se_queue se) as [|[? ?] ?]; [apply H|].
+    simpl. intro A. apply active_set_cases in A.
+    destruct A as [[E _]|[_ A]]; [subst; apply H; exists se; exact Pk|apply H; exact A].
+  - destruct (phase s k) eqn:Pk; try apply H. destruct (nth_error (se_tasks se) j0); [|apply H].
+    simpl. intros [se1 P].
+    change (phase (set_phase s k (Active (mkSe (se_watch se) (se_listed se) (se_init se) (se_queue se) (remove_nth j0 (se_tasks se))))) j = Active se1) in P.
+    assert (A : active (set_phase s k (Active (mkSe (se_watch se) (se_listed se) (se_init se) (se_queue se) (remove_nth j0 (se_tasks se))))) j) by (exists se1; exact P).
+    apply active_set_cases in A.
+    destruct A as [[E _]|[_ A]]; [subst; apply H; exists se; exact Pk|apply H; exact A].
+  - destruct (phase s k) eqn:Pk; try apply H. destruct (nth_error (se_tasks se) j0); [|apply H].
+    simpl. intro A. apply active_set_cases in A.
+    destruct A as [[E _]|[_ A]]; [subst; apply H; exists se; exact Pk|apply H; exact A].
+Qed.
+
+Lemma hexact_run : forall evs s, Forall (fun e => ~ lease_loss e) evs -> hexact s -> hexact (run s evs).
+Proof.
+  induction evs as [|e t IH]; intros s F H; simpl; [exact H|]. inversion F; subst.
+  apply IH; [assumption|]. apply hexact_step; assumption.
+Qed.
+Lemma hexact_init : hexact init.
+Proof. intros k [se P]. unfold phase in P. simpl in P. destruct k; discriminate. Qed.
+
+(* withActiveLock.  The key /selfmon/active is always bound to the lease of a
+   running session, so at most one session holds it ... *)
+Theorem one_leased : forall evs k,
+  let s := run init evs in holder s = Some k -> active s k.
+Proof. intros evs k s H. apply (hvalid_run evs init hvalid_init). exact H. Qed.
+
+(* ... and two sessions can run at the same time only while one of them has
+   lost its lease and not yet noticed (stale) *)
+Theorem one_active : forall evs k1 k2,
+  let s := run init evs in
+  active s k1 -> active s k2 -> k1 <> k2 -> stale s k1 \/ stale s k2.
+Proof.
+  intros evs k1 k2 s A1 A2 N. unfold stale.
+  destruct (holder s) as [h|] eqn:Ho.
+  - destruct (Nat.eq_dec h k1); [right|left]; split; auto; congruence.
+  - left. split; [exact A1|discriminate].
+Qed.
+
+(* without lease losses nobody is ever stale: a single active watcher *)
+Theorem one_active_no_loss : forall evs k1 k2 se1 se2,
+  Forall (fun e => ~ lease_loss e) evs ->
   let s := run init evs in
   phase s k1 = Active se1 -> phase s k2 = Active se2 -> k1 = k2.
 Proof.
-  intros evs k1 k2 se1 se2 s P1 P2.
-  assert (I : inv s) by (apply inv_run; exact inv_init).
-  pose proof (inv_holder _ I _ _ P1). pose proof (inv_holder _ I _ _ P2). congruence.
+  intros evs k1 k2 se1 se2 F s P1 P2.
+  pose proof (hexact_run evs init F hexact_init) as H.
+  assert (holder s = Some k1) by (apply H; exists se1; exact P1).
+  assert (holder s = Some k2) by (apply H; exists se2; exact P2). congruence.
+Qed.
+
+(* the window exists: after the lease is lost and before the old session
+   notices, another watcher registers and both run *)
+Example double_active_window :
+  let s := run init [ESpawn; ESpawn; EStart 0; EStart 1; ERegister 0; ELeaseLost 0; ERegister 1] in
+  active s 0 /\ active s 1 /\ stale s 0 /\ holder s = Some 1.
+Proof.
+  vm_compute. repeat split; try (eexists; reflexivity); discriminate.
 Qed.
 
 (* the hypotheses are satisfiable, and the statement is not vacuous *)
@@ -453,7 +635,8 @@ Proof. vm_compute. reflexivity. Qed.
 (* ------------------------------------------------------------------ *)
 
 (* events that end the session of watcher k *)
-Definition ends (k : nat) (e : event) : Prop := e = EStop k \/ e = EExpire k.
+(* ... or make one of its handlers fail (SetNode error: the code does not retry) *)
+Definition ends (k : nat) (e : event) : Prop := e = EStop k \/ e = EExpire k \/ exists j, e = EHandleFail k j.
 
 (* the handler for n has run (as one of the first [length t - base] entries of the trace)
    and covered every workload in [must] *)
@@ -567,11 +750,6 @@ Proof.
   - eapply extends_same_nodes; [apply extends_refl|]. apply map_node_down.
 Qed.
 
-Lemma phase_enqueue_any : forall s n a k al,
-  phase (set_ws (set_alive s al) (map (enqueue n a) (ws s))) k = enqueue n a (phase s k).
-Proof.
-  intros. unfold phase. simpl. change Stopped with (enqueue n a Stopped) at 1. rewrite map_nth. reflexivity.
-Qed.
 
 Lemma pending_enqueue : forall s k n m a al,
   pending s k n -> pending (set_ws (set_alive s al) (map (enqueue m a) (ws s))) k n.
@@ -601,7 +779,9 @@ Proof.
     destruct (holder s); [left; exact Pd|].
     destruct (Nat.eq_dec k0 k) as [E|E]; [subst; destruct Pd as [se [P _]]; congruence|].
     left. eapply pending_frame; [|apply (pending_other s k n k0 (Active fresh) E Pd)]. reflexivity.
-  - (* EExpire *) destruct (Nat.eq_dec k0 k) as [E|E]; [subst; exfalso; apply NE; right; reflexivity|].
+  - (* ELeaseLost *) left. destruct (holder s) as [k'|]; [|exact Pd]. destruct (k' =? k0); [|exact Pd].
+    eapply pending_frame; [|exact Pd]. reflexivity.
+  - (* EExpire *) destruct (Nat.eq_dec k0 k) as [E|E]; [subst; exfalso; apply NE; right; left; reflexivity|].
     destruct (phase s k0); try (left; exact Pd).
     left. eapply pending_frame; [|apply (pending_other s k n k0 Waiting E Pd)]. reflexivity.
   - (* EStop *) destruct (Nat.eq_dec k0 k) as [E|E]; [subst; exfalso; apply NE; left; reflexivity|].
@@ -636,6 +816,9 @@ Proof.
         [reflexivity|simpl; auto|simpl].
       intro H. eapply In_remove_nth; eauto.
     + left. eapply pending_frame; [|apply (pending_other s k n k0 (Active (mkSe (se_watch se) (se_listed se) (se_init se) (se_queue se) (remove_nth j (se_tasks se)))) E Pd)]. reflexivity.
+  - (* EHandleFail *) destruct (Nat.eq_dec k0 k) as [E|E]; [subst; exfalso; apply NE; right; right; exists j; reflexivity|].
+    destruct (phase s k0) eqn:Pk; try (left; exact Pd).
+    destruct (nth_error (se_tasks se) j); [|left; exact Pd]. left. apply pending_other; assumption.
 Qed.
 
 Lemma track_step : forall s0 s k n e, track s0 s k n -> ~ ends k e -> track s0 (step s e) k n.
@@ -664,11 +847,11 @@ Qed.
 Lemma next_event_not_end : forall s k e, next_event s k = Some e -> ~ ends k e.
 Proof.
   intros s k e H. unfold next_event in H. destruct (phase s k); try discriminate.
-  destruct (negb (se_watch se)); [inversion H; intros [X|X]; discriminate|].
-  destruct (negb (se_listed se)); [inversion H; intros [X|X]; discriminate|].
-  destruct (se_init se); [|inversion H; intros [X|X]; discriminate].
-  destruct (se_queue se); [|inversion H; intros [X|X]; discriminate].
-  destruct (se_tasks se); [discriminate|inversion H; intros [X|X]; discriminate].
+  destruct (negb (se_watch se)); [inversion H; intros [X|[X|[j0 X]]]; discriminate|].
+  destruct (negb (se_listed se)); [inversion H; intros [X|[X|[j0 X]]]; discriminate|].
+  destruct (se_init se); [|inversion H; intros [X|[X|[j0 X]]]; discriminate].
+  destruct (se_queue se); [|inversion H; intros [X|[X|[j0 X]]]; discriminate].
+  destruct (se_tasks se); [discriminate|inversion H; intros [X|[X|[j0 X]]]; discriminate].
 Qed.
 
 Lemma track_settle : forall fuel s0 s k n, track s0 s k n -> track s0 (settle fuel k s) k n.
@@ -802,7 +985,9 @@ Proof.
     destruct (holder s); [left; exact Pd|].
     destruct (Nat.eq_dec k0 k) as [E|E]; [subst; destruct Pd as [se [P _]]; congruence|].
     left. eapply pendingI_frame; [| |apply (pendingI_other s k n k0 (Active fresh) E Pd)]; reflexivity.
-  - (* EExpire *) destruct (Nat.eq_dec k0 k) as [E|E]; [subst; exfalso; apply NE; right; reflexivity|].
+  - (* ELeaseLost *) left. destruct (holder s) as [k'|]; [|exact Pd]. destruct (k' =? k0); [|exact Pd].
+    eapply pendingI_frame; [| |exact Pd]; reflexivity.
+  - (* EExpire *) destruct (Nat.eq_dec k0 k) as [E|E]; [subst; exfalso; apply NE; right; left; reflexivity|].
     destruct (phase s k0); try (left; exact Pd).
     left. eapply pendingI_frame; [| |apply (pendingI_other s k n k0 Waiting E Pd)]; reflexivity.
   - (* EStop *) destruct (Nat.eq_dec k0 k) as [E|E]; [subst; exfalso; apply NE; left; reflexivity|].
@@ -851,6 +1036,9 @@ Proof.
         [reflexivity|reflexivity|simpl].
       intros [H|[H|H]]; auto. right. left. eapply In_remove_nth; eauto.
     + left. eapply pendingI_frame; [| |apply (pendingI_other s k n k0 (Active (mkSe (se_watch se) (se_listed se) (se_init se) (se_queue se) (remove_nth j (se_tasks se)))) E Pd)]; reflexivity.
+  - (* EHandleFail *) destruct (Nat.eq_dec k0 k) as [E|E]; [subst; exfalso; apply NE; right; right; exists j; reflexivity|].
+    destruct (phase s k0) eqn:Pk; try (left; exact Pd).
+    destruct (nth_error (se_tasks se) j); [|left; exact Pd]. left. apply pendingI_other; assumption.
 Qed.
 
 Definition revived (evs : list event) (s : st) (n : node) : Prop :=
